@@ -3,29 +3,29 @@ package rules
 func init() {
 	property(&Property{ID: "C02", Level: "other",
 		Rules:       []string{"R-STALE", "R-LOOKBACK", "R-SHARD", "R-ATOFFSET", "R-ITERERR", "R-ZEROSTEP", "R-SELKEY", "R-REFPORT-SELECT", "R-CURSORRESET"},
-		Scope:       map[string][]string{"R-CURSORRESET": {"vectorSelector"}, "R-ITERERR": {"selectPoint "}, "R-STALE": {"selectPoint "}, "R-ZEROSTEP": {"vectorSelector"}},
+		Scope:       map[string][]string{"R-CURSORRESET": {"vectorSelector"}, "R-ITERERR": {"MemoizedSeriesIterator"}, "R-STALE": {"instant-vector sample", "emits iterator sample"}, "R-ZEROSTEP": {"vectorSelector"}},
 		Explanation: "Structural necessary conditions of instant-vector selection, decided for every path of the current source: no iterator sample reaches an emission without passing the staleness test; the per-query lookback delta reaches the plan; shard indices 0..n-1 are each instantiated once, n>=1, and merged by one coalesce; selector operators are built with the @-folded Offset while the select range uses Timestamp/OriginalOffset; a failing Seek is told apart from an exhausted iterator; step cursors cannot stall on instant queries.",
 		NotDecided: []string{
 			"not decided: the direction of the age comparison (lookback-1/lookback/lookback+1 ms: R-REFPORT-SELECT sees that the reference's two timestamp comparisons are there, not which operand is the larger one), the arithmetic that folds @ into an offset, the slicing arithmetic of seriesShard and the re-basing sums of sample IDs (value-level)",
 		}})
 	property(&Property{ID: "C03", Level: "other",
 		Rules:       []string{"R-STALE", "R-TRUNCDIV", "R-KERNELBOUNDS", "R-SENTINEL", "R-ITERERR", "R-SLABCAP", "R-REFPORT-RANGE", "R-LABELPOS", "R-CURSORRESET"},
-		Scope:       map[string][]string{"R-CURSORRESET": {"matrixSelector"}, "R-ITERERR": {"selectPoints"}, "R-STALE": {"selectPoints"}, "R-SENTINEL": {"matrixSelector"}},
+		Scope:       map[string][]string{"R-CURSORRESET": {"matrixSelector"}, "R-ITERERR": {"BufferedSeriesIterator"}, "R-STALE": {"range-vector sample", "emits iterator sample"}, "R-SENTINEL": {"matrixSelector"}},
 		Explanation: "Structural necessary conditions of range-function evaluation: no stale sample enters a window (buffered and sought samples); per-second division uses the untruncated range; every window kernel guards its indexing for 0/1-sample windows (presence rule of irate/idelta/rate-like kernels >= 2 points); the matrix call site honours the 'no output' sentinel; iterator failures surface.",
 		NotDecided: []string{
 			"not decided: window maintenance across steps (previousPoints overlap reuse), the direction of edge comparisons between two variables, the order in which a kernel combines its operands, additions/subtractions (value-level). R-REFPORT-RANGE compares a decision signature that is invariant under renaming, reordering, helper extraction and if/else inversion; it would report a rewrite that replaces a comparison or an operation by a differently shaped equivalent one",
 		}})
 	property(&Property{ID: "C04", Level: "other",
-		Rules:       []string{"R-ACCRESET", "R-INTCONV", "R-SAMPLE0", "R-ONEPERSTEP", "R-PAIRING", "R-SORTEDNAMES", "R-TABLETS", "R-AGGNAME", "R-SHORTCUT", "R-ACCNONEMPTY", "R-ALLOCSIZE", "R-BATCHIDX", "R-VALIDEVERY", "R-REFPORT-AGG", "R-FILLRANGE", "R-COPYWRITE", "R-SCALAREND", "R-STEPEVERY", "R-REFERRORS", "R-NANSORT", "R-SENDEVERY"},
+		Rules:       []string{"R-ACCRESET", "R-INTCONV", "R-SAMPLE0", "R-ONEPERSTEP", "R-PAIRING", "R-SORTEDNAMES", "R-TABLETS", "R-AGGNAME", "R-SHORTCUT", "R-ACCNONEMPTY", "R-ALLOCSIZE", "R-BATCHIDX", "R-VALIDEVERY", "R-REFPORT-AGG", "R-FILLRANGE", "R-COPYWRITE", "R-SCALAREND", "R-STEPEVERY", "R-REFERRORS", "R-NANSORT", "R-SENDEVERY", "R-EMPTYBY"},
 		Scope:       map[string][]string{"R-SENDEVERY": {"execution/aggregate"}, "R-REFERRORS": {"execution/aggregate"}, "R-STEPEVERY": {"execution/aggregate"}, "R-SCALAREND": {"ggregate"}, "R-COPYWRITE": {"execution/aggregate"}, "R-FILLRANGE": {"execution/aggregate"}, "R-BATCHIDX": {"execution/aggregate"}, "R-PAIRING": {"execution/aggregate", "model.VectorPool"}, "R-SAMPLE0": {"execution/aggregate"}, "R-SHORTCUT": {"execution/aggregate"}, "R-SORTEDNAMES": {"execution/aggregate"}, "R-ONEPERSTEP": {"execution/aggregate"}},
-		Explanation: "Structural necessary conditions of aggregation: every accumulator is completely reset per step (tables are reused for every batch); the k/quantile parameter is NaN/range-tested before it is used as an integer; a parameter absent at a step is not indexed; one step vector per step; IDs and values are written in pairs; the grouping names handed to the label hashes are the sorted slice.",
+		Explanation: "Structural necessary conditions of aggregation: every accumulator is completely reset per step (tables are reused for every batch); the k/quantile parameter is NaN/range-tested before it is used as an integer; a parameter absent at a step is not indexed; one step vector per step; IDs and values are written in pairs; the grouping names handed to the label hashes are the sorted slice. An empty-grouping short cut depends on the by/without flag; the ungrouped sum/count/group accumulators decide like the reference arm.",
 		NotDecided: []string{
 			"not decided: the group keys/labels beyond the structural clauses, the reduction values of avg/stddev/stdvar (different algorithms from the reference arm, not compared), tie handling (value-level)",
 		}})
 	property(&Property{ID: "C05", Level: "other",
-		Rules:       []string{"R-BOOLNAME", "R-LABELBUILD", "R-SORTEDNAMES", "R-LABELFRESH", "R-DUPBOOK", "R-SHORTCUT", "R-BATCHIDX", "R-OPTABLE", "R-REFLABELS", "R-COPYWRITE", "R-SCALAREND", "R-STEPEVERY", "R-DROPNAMESET", "R-REFERRORS"},
+		Rules:       []string{"R-BOOLNAME", "R-LABELBUILD", "R-SORTEDNAMES", "R-LABELFRESH", "R-DUPBOOK", "R-SHORTCUT", "R-BATCHIDX", "R-OPTABLE", "R-REFLABELS", "R-COPYWRITE", "R-SCALAREND", "R-STEPEVERY", "R-DROPNAMESET", "R-REFERRORS", "R-REFPORT-BINARY"},
 		Scope:       map[string][]string{"R-REFERRORS": {"execution/binary"}, "R-STEPEVERY": {"execution/binary"}, "R-SCALAREND": {"scalarOperator"}, "R-COPYWRITE": {"execution/binary"}, "R-BATCHIDX": {"execution/binary"}, "R-SHORTCUT": {"execution/binary"}, "R-SORTEDNAMES": {"execution/binary"}},
-		Explanation: "Structural necessary conditions of binary operators: both operators decide about dropping the metric name from the operator type and the bool modifier; result label sets are never grown by raw appends; matching label names handed to the hashes are sorted; label sets are edited in place only on fresh copies (the operands may be the same pooled selector); the duplicate-match bookkeeping of a step is recorded for every matched sample before the comparison filter can skip it.",
+		Explanation: "Structural necessary conditions of binary operators: both operators decide about dropping the metric name from the operator type and the bool modifier; result label sets are never grown by raw appends; matching label names handed to the hashes are sorted; label sets are edited in place only on fresh copies (the operands may be the same pooled selector); the duplicate-match bookkeeping of a step is recorded for every matched sample before the comparison filter can skip it. The per-sample loop of vector-scalar operations makes the decisions of the reference's VectorscalarBinop.",
 		NotDecided: []string{
 			"not decided: which pairs match, the values beyond 'each table entry applies the reference operation to (left, right)', the step at which an ambiguous match is reported (value-level); an operator missing from the operation tables falls back correctly and is covered by C08",
 		}})
@@ -37,51 +37,52 @@ func init() {
 			"not decided: function values beyond the decision signature (e.g. clamp with a NaN bound: max<min and !(min<=max) have the same signature), alignment of scalar operands whose stream is shorter but not empty, replication of @-pinned vectors (value-level)",
 		}})
 	property(&Property{ID: "C08", Level: "other",
-		Rules:       []string{"R-VOCAB", "R-ERRPROP", "R-NODECOPY", "R-VALUESWITCH"},
-		Explanation: "For the complete vocabulary of the pinned parser (every key of parser.Functions, every aggregation and binary operator token, every concrete Expr type, read from the module's source on every run): each item is either handled by a case/table entry of plan construction or reaches a branch that returns an error built from a sentinel of execution/parse; errors created during construction are sentinel-built, propagate unchanged and are checked before results are used; every Expr-typed child of a supported node is planned; unsupported-ness is decided in the construction tree (not in Next/Series); triggerFallback tests every sentinel; the query counter is bumped exactly once with the label of the path taken; the fallback call receives the caller's own arguments.",
+		Rules:       []string{"R-VOCAB", "R-ERRPROP", "R-NODECOPY", "R-VALUESWITCH", "R-CREATETIME", "R-WINDOWARGS"},
+		Explanation: "For the complete vocabulary of the pinned parser (every key of parser.Functions, every aggregation and binary operator token, every concrete Expr type, read from the module's source on every run): each item is either handled by a case/table entry of plan construction or reaches a branch that returns an error built from a sentinel of execution/parse; errors created during construction are sentinel-built, propagate unchanged and are checked before results are used; every Expr-typed child of a supported node is planned; unsupported-ness is decided in the construction tree (not in Next/Series); triggerFallback tests every sentinel; the query counter is bumped exactly once with the label of the path taken; the fallback call receives the caller's own arguments. Query constructors of other engines run at query creation and receive the caller's window unchanged.",
 		NotDecided: []string{
 			"not decided: that natively evaluated constructs return the reference's results (C01)",
 			"trusted: the induction over the AST that combines the obligations, the parser's type checking of argument kinds",
 		}})
 	property(&Property{ID: "C09", Level: "other",
-		Rules:       []string{"R-SLOTPTR", "R-LABELFRESH", "R-MATCHEQ", "R-ATOFFSET", "R-NODECOPY", "R-MEMOKEY", "R-MATCHPOS", "R-FILTERALL", "R-MATCHGROW", "R-DROPEXACT", "R-ONFLAG", "R-FOREIGNAPPEND"},
-		Explanation: "Structural necessary conditions of the logical optimizers: every traversal hands out pointers to real slots of the tree, so a replacement (made after in-place edits of the replaced node) lands in the tree in every syntactic position; matcher slices are edited in place only on fresh copies; the subset test that licenses replacing a selector compares name, type and value of the matchers.",
+		Rules:       []string{"R-SLOTPTR", "R-LABELFRESH", "R-MATCHEQ", "R-ATOFFSET", "R-NODECOPY", "R-MEMOKEY", "R-MATCHPOS", "R-FILTERALL", "R-MATCHGROW", "R-DROPEXACT", "R-ONFLAG", "R-FOREIGNAPPEND", "R-SORTEDNAMES"},
+		Scope:       map[string][]string{"R-SORTEDNAMES": {"execution/storage"}},
+		Explanation: "Structural necessary conditions of the logical optimizers: every traversal hands out pointers to real slots of the tree, so a replacement (made after in-place edits of the replaced node) lands in the tree in every syntactic position; matcher slices are edited in place only on fresh copies; the subset test that licenses replacing a selector compares name, type and value of the matchers. Name lists handed to the sorted-names label APIs by the merged-select filter are sorted values.",
 		NotDecided: []string{
 			"not decided: that the rewrites preserve semantics in general; decided are the clauses whose violation produced the defects found so far: every matcher is applied with the value looked up by name, a selector's matcher list is only grown or taken over whole, deletion by label name is reserved for the metric name, matchers are compared by (name, type, value), no positional access",
 		}})
 	property(&Property{ID: "C10", Level: "other",
-		Rules:       []string{"R-SLOTPTR", "R-DISTTABLE", "R-REMOTELOOKBACK", "R-SHARD", "R-PUSHDOWN", "R-NODECOPY", "R-EXPRORIGIN", "R-CORECOUNT", "R-ONEBATCHSIZE", "R-VALUESWITCH"},
-		Explanation: "Structural necessary conditions of distributed execution: push-down rewrites land in the tree in every position; only algebraically distributive aggregations are pushed, count is re-aggregated with sum; remote results are read by exact timestamp (no second lookback); the remote reader is a single complete shard; the bottom-up traversal stops (returns true) for every node kind other than the distributive ones it recurses into, so nothing else is pushed down whole.",
+		Rules:       []string{"R-SLOTPTR", "R-DISTTABLE", "R-REMOTELOOKBACK", "R-SHARD", "R-PUSHDOWN", "R-NODECOPY", "R-EXPRORIGIN", "R-CORECOUNT", "R-ONEBATCHSIZE", "R-VALUESWITCH", "R-REMOTETEXT", "R-WINDOWARGS"},
+		Explanation: "Structural necessary conditions of distributed execution: push-down rewrites land in the tree in every position; only algebraically distributive aggregations are pushed, count is re-aggregated with sum; remote results are read by exact timestamp (no second lookback); the remote reader is a single complete shard; the bottom-up traversal stops (returns true) for every node kind other than the distributive ones it recurses into, so nothing else is pushed down whole. The text of a remote sub-query is rendered after node types of other optimizers were converted; the remote-engine adapter hands the window on unchanged.",
 		NotDecided: []string{
 			"not decided: that no selector is left outside a remote execution for every tree shape; commutation with the union for all data (value-level)",
 		}})
 	property(&Property{ID: "C11", Level: "other",
-		Rules:       []string{"R-SHARD", "R-LINEAR", "R-GOSHARED", "R-SHARDCOPY", "R-SLABCAP", "R-PUTORDER", "R-CORECOUNT", "R-POOLLINEAR", "R-CURSORRESET", "R-NANSORT"},
-		Explanation: "Structural necessary conditions of determinism: no shard is lost or duplicated for any shard count; no operator is consumed by two parents; every variable shared with a goroutine is written index-privately, under a mutex that covers all its accesses, or before a channel/WaitGroup hand-off; shard slices handed to operators are private copies of the shared series list.",
+		Rules:       []string{"R-SHARD", "R-LINEAR", "R-GOSHARED", "R-SHARDCOPY", "R-SLABCAP", "R-PUTORDER", "R-CORECOUNT", "R-POOLLINEAR", "R-CURSORRESET", "R-NANSORT", "R-POOLWRITE"},
+		Explanation: "Structural necessary conditions of determinism: no shard is lost or duplicated for any shard count; no operator is consumed by two parents; every variable shared with a goroutine is written index-privately, under a mutex that covers all its accesses, or before a channel/WaitGroup hand-off; shard slices handed to operators are private copies of the shared series list. Series lists are written (element stores, appends) only when allocated here or while the owner builds its own list, and are handed out as copies; pool Get/Put methods write no pool field.",
 		NotDecided: []string{
 			"not decided: slicing arithmetic, arrival-order dependent tie-breaking, float summation order, NaN ordering (value-/schedule-level)",
 		}})
 	property(&Property{ID: "C12", Level: "other",
-		Rules:       []string{"R-GLOBALS", "R-ENGINEWO", "R-POOLSCOPE", "R-APIFIELDSYNC", "R-GOSHARED", "R-LINEAR", "R-LABELFRESH", "R-SHARDCOPY", "R-PUTORDER", "R-POOLLINEAR", "R-PUTONCE"},
-		Explanation: "Structural necessary conditions of isolation: package-level state and engine fields are never written after construction; pools and select caches are per plan; fields shared between Exec and Cancel/Close are mutex-protected; intra-query shared writes are synchronised; storage-owned label sets and the shared series list are never edited in place.",
+		Rules:       []string{"R-GLOBALS", "R-ENGINEWO", "R-POOLSCOPE", "R-APIFIELDSYNC", "R-GOSHARED", "R-LINEAR", "R-LABELFRESH", "R-SHARDCOPY", "R-PUTORDER", "R-POOLLINEAR", "R-PUTONCE", "R-GOPUBLISH", "R-ENGINEOBJ", "R-POOLWRITE"},
+		Explanation: "Structural necessary conditions of isolation: package-level state and engine fields are never written after construction; pools and select caches are per plan; fields shared between Exec and Cancel/Close are mutex-protected; intra-query shared writes are synchronised; storage-owned label sets and the shared series list are never edited in place. A goroutine stores to shared fields before its first release; an engine holds no concurrency-unsafe standard-library object outside a mutex; pool Get/Put methods write no pool field.",
 		NotDecided: []string{
 			"not decided: race freedom inside dependencies and the storage; aliasing the rules do not model",
 		}})
 	property(&Property{ID: "C13", Level: "other",
-		Rules:       []string{"R-PANICDOMAIN", "R-WRAP", "R-RECOVERTOTAL", "R-INITBEFOREUSE", "R-INTCONV", "R-SAMPLE0", "R-KERNELBOUNDS", "R-DEFERORDER", "R-POINT0", "R-ACCNONEMPTY", "R-ALLOCSIZE", "R-QUERYCLOSE", "R-BATCHIDX", "R-LOCKDEFER", "R-STALEGUARD"},
-		Explanation: "Structural necessary conditions of crash containment: the API entry and every goroutine that can reach a user-supplied callback is a recovered panic domain; every recovered value is reported; the recovering defer runs before the defer that closes the channel it reports on; no operator state is used before its once-guarded initialiser; run-time floats are tested before integer conversion; scalar operands and windows are indexed behind length tests.",
+		Rules:       []string{"R-PANICDOMAIN", "R-WRAP", "R-RECOVERTOTAL", "R-INITBEFOREUSE", "R-INTCONV", "R-SAMPLE0", "R-KERNELBOUNDS", "R-DEFERORDER", "R-POINT0", "R-ACCNONEMPTY", "R-ALLOCSIZE", "R-QUERYCLOSE", "R-BATCHIDX", "R-LOCKDEFER", "R-STALEGUARD", "R-WRAPRET", "R-NILFIELD"},
+		Explanation: "Structural necessary conditions of crash containment: the API entry and every goroutine that can reach a user-supplied callback is a recovered panic domain; every recovered value is reported; the recovering defer runs before the defer that closes the channel it reports on; no operator state is used before its once-guarded initialiser; run-time floats are tested before integer conversion; scalar operands and windows are indexed behind length tests. The exchange constructors always return their own (recovering) operator; optional operator fields are used only behind their nil test.",
 		NotDecided: []string{
 			"not decided: fatal runtime errors recover cannot catch (concurrent map writes, stack exhaustion), out-of-memory; panics on worker goroutines caused by defects inside the aggregation tables themselves (no user callback is reachable there)",
 		}})
 	property(&Property{ID: "C14", Level: "other",
 		Rules:       []string{"R-LOSTCANCEL", "R-APIFIELDSYNC", "R-ZEROSTEP", "R-CANCELEARLY", "R-CHANCAP", "R-WORKERCLOSE", "R-CTXDERIVED", "R-QUERYCLOSE", "R-LOCKDEFER", "R-CANCELLOCK", "R-RELEASEFN", "R-DONEPARAM", "R-SENDEVERY"},
-		Explanation: "Structural necessary conditions of cancellation: the per-execution context is cancelled on every return; the cancel function is published to Cancel/Close (under the mutex) before Exec makes its first call into the plan; step cursors terminate on instant queries; every error channel a goroutine sends on without a select has capacity for all its senders, so a sender never blocks after its receiver returned early.",
+		Explanation: "Structural necessary conditions of cancellation: the per-execution context is cancelled on every return; the cancel function is published to Cancel/Close (under the mutex) before Exec makes its first call into the plan; step cursors terminate on instant queries; every error channel a goroutine sends on without a select has capacity for all its senders, so a sender never blocks after its receiver returned early. An error channel fed by goroutines started in a loop has room for all of them.",
 		NotDecided: []string{
 			"not decided: 'within bounded time'; storage callbacks that ignore the context; that the context's error rather than a value is returned on the last batch; full deadlock freedom of the worker protocol (R-CHAN of the design was withdrawn, see DESIGN.md)",
 		}})
 	property(&Property{ID: "C15", Level: "other",
-		Rules:       []string{"R-ITERERR", "R-SETERR", "R-ERRPROP", "R-ERRSEND", "R-ERRFIRST", "R-ERRIDENT", "R-ERRKEPT"},
-		Explanation: "Structural necessary conditions of error surfacing: a failing iterator/series set is distinguished from an exhausted one at every advance site; an error assigned inside a once/closure is assigned to the variable the enclosing function returns (no shadowing declaration); every error returned by a child operator or helper in execution/... is tested and returned before the other results are used.",
+		Rules:       []string{"R-ITERERR", "R-SETERR", "R-ERRPROP", "R-ERRSEND", "R-ERRFIRST", "R-ERRIDENT", "R-ERRKEPT", "R-ERRBEFORE"},
+		Explanation: "Structural necessary conditions of error surfacing: a failing iterator/series set is distinguished from an exhausted one at every advance site; an error assigned inside a once/closure is assigned to the variable the enclosing function returns (no shadowing declaration); every error returned by a child operator or helper in execution/... is tested and returned before the other results are used. The error of a call is looked at before any return of the function is reachable.",
 		NotDecided: []string{
 			"not decided: wrapping fidelity of the final error; the once-guarded loaders do not latch their error (no plan was found in which that yields a successful result)",
 		}})
@@ -92,26 +93,26 @@ func init() {
 			"not decided: the values of the start/end arithmetic beyond 'only the reference's kinds of integer operations'; sufficiency of the range under optimizer rewrites (value-level)",
 		}})
 	property(&Property{ID: "C17", Level: "other",
-		Rules:       []string{"R-QUERIER", "R-LABELFRESH", "R-QUERYCLOSE", "R-JOIN"},
-		Explanation: "Structural necessary conditions of storage ownership: every querier is closed exactly once by an unconditional defer placed right after the error check; nothing is opened at query creation; label sets are edited in place only on fresh copies; every goroutine that can reach the storage is joined by its spawner on every path to a return, so that no select (and no open querier) outlives Exec.",
+		Rules:       []string{"R-QUERIER", "R-LABELFRESH", "R-QUERYCLOSE", "R-JOIN", "R-WRAPRET"},
+		Explanation: "Structural necessary conditions of storage ownership: every querier is closed exactly once by an unconditional defer placed right after the error check; nothing is opened at query creation; label sets are edited in place only on fresh copies; every goroutine that can reach the storage is joined by its spawner on every path to a return, so that no select (and no open querier) outlives Exec. The exchange constructors always return their own operator (the boundary the join and recover arguments rely on).",
 		NotDecided: []string{
 			"not decided: sort.Sort on uncopied (already sorted) storage labels performs no writes - assumed; closing of remote queries that are created but never executed; R-JOIN decides that each spawner waits for its storage-reaching goroutine on every path, not that a single receive from the pull goroutine's buffer means that goroutine has finished",
 		}})
 	property(&Property{ID: "C18", Level: "other",
-		Rules:       []string{"R-INITBEFOREUSE", "R-PAIRING", "R-ONEPERSTEP", "R-STALE", "R-LINEAR", "R-STEPBOUND", "R-SHARDCOPY", "R-TSTAMP", "R-EMPTYSERIES", "R-TABLETS", "R-OUTALIAS", "R-PULLALL", "R-PUTORDER", "R-ENDSTICKY", "R-STEPTS", "R-ONEBATCHSIZE", "R-CURSORRESET", "R-STEPEVERY"},
-		Explanation: "Structural necessary conditions of the stream contract: operators serve batches whether or not Series was called first; IDs and values are written in pairs; one step vector per step; no staleness marker is emitted; one consumer per operator; generator loops are bounded by the window end; shards renumber private copies; a step vector's timestamp comes from the step grid, not from sample data.",
+		Rules:       []string{"R-INITBEFOREUSE", "R-PAIRING", "R-ONEPERSTEP", "R-STALE", "R-LINEAR", "R-STEPBOUND", "R-SHARDCOPY", "R-TSTAMP", "R-EMPTYSERIES", "R-TABLETS", "R-OUTALIAS", "R-PULLALL", "R-PUTORDER", "R-ENDSTICKY", "R-STEPTS", "R-ONEBATCHSIZE", "R-CURSORRESET", "R-STEPEVERY", "R-GRIDMILLIS"},
+		Explanation: "Structural necessary conditions of the stream contract: operators serve batches whether or not Series was called first; IDs and values are written in pairs; one step vector per step; no staleness marker is emitted; one consumer per operator; generator loops are bounded by the window end; shards renumber private copies; a step vector's timestamp comes from the step grid, not from sample data. Arithmetic on the evaluation window goes through truncated milliseconds; a kernel never returns the zero sample next to stamped ones.",
 		NotDecided: []string{
 			"not decided: uniqueness and range of sample IDs, monotone step order, 'ended stays ended' (value-level)",
 		}})
 	property(&Property{ID: "C19", Level: "other",
 		Rules:       []string{"R-LABELBUILD", "R-RESULTSHAPE", "R-STALE", "R-TSTAMP", "R-LABELFRESH", "R-HASHSAME", "R-EXPRORIGIN", "R-STEPTS", "R-LABELPOS"},
-		Explanation: "Structural necessary conditions of result well-formedness: label sets are not grown by raw appends; the matrix is sorted, empty series pruned, instant samples stamped with the evaluation time; no staleness marker is emitted; kernels stamp their result with the step time; label sets shared through the selector pool are not edited in place.",
+		Explanation: "Structural necessary conditions of result well-formedness: label sets are not grown by raw appends; the matrix is sorted, empty series pruned, instant samples stamped with the evaluation time; no staleness marker is emitted; kernels stamp their result with the step time; label sets shared through the selector pool are not edited in place. The range result is sorted in the reference's label order.",
 		NotDecided: []string{
 			"not decided: pairwise distinct label sets after name dropping, timestamps on the grid for every operator, overflow/denormal values (value-level)",
 		}})
 	property(&Property{ID: "C20", Level: "other",
-		Rules:       []string{"R-ENGINEWO", "R-GLOBALS", "R-POOLSCOPE", "R-FOREIGNAPPEND", "R-USEAFTERPUT", "R-LABELFRESH", "R-RESULTCOPY", "R-OUTALIAS", "R-PUTORDER", "R-NODECOPY", "R-RELEASEFN", "R-PUTONCE"},
-		Explanation: "Structural necessary conditions of statelessness: an engine holds nothing a query can write; no kept append onto a caller's or the package's slice; recycled buffers are not read again; storage-owned label sets (which returned results alias) are never edited in place; Exec copies sample values out of pooled step vectors (no pooled slice type is reachable from promql.Result).",
+		Rules:       []string{"R-ENGINEWO", "R-GLOBALS", "R-POOLSCOPE", "R-FOREIGNAPPEND", "R-USEAFTERPUT", "R-LABELFRESH", "R-RESULTCOPY", "R-OUTALIAS", "R-PUTORDER", "R-NODECOPY", "R-RELEASEFN", "R-PUTONCE", "R-ENGINEOBJ", "R-CTORSNAPSHOT"},
+		Explanation: "Structural necessary conditions of statelessness: an engine holds nothing a query can write; no kept append onto a caller's or the package's slice; recycled buffers are not read again; storage-owned label sets (which returned results alias) are never edited in place; Exec copies sample values out of pooled step vectors (no pooled slice type is reachable from promql.Result). Engine constructors do not consult the providers they are handed; an engine holds no concurrency-unsafe object outside a mutex.",
 		NotDecided: []string{
 			"not decided: equality with a fresh engine after data changes (needs running); the storage's own caches",
 		}})
